@@ -270,6 +270,43 @@ static std::string retJson(Context& ctx) {
   return o;
 }
 
+// a stream reader that delivers the text in the fragments of a schedule (sizes; the last size repeats)
+class FragReader : public Parser::StreamReader {
+  std::string _text; size_t _pos = 0; std::vector<int> _sizes; size_t _k = 0;
+public:
+  FragReader(const std::string& t, const std::vector<int>& sizes) : _text(t), _sizes(sizes) {}
+  int read(Parser*, char* buf, int max_size) override {
+    if (_pos >= _text.size()) return 0;
+    int want = _sizes.empty() ? max_size : _sizes[_k < _sizes.size() ? _k : _sizes.size() - 1];
+    ++_k;
+    if (want < 1) want = 1;
+    if (want > max_size) want = max_size;
+    int n = 0;
+    /* like the built-in readers, carriage returns are dropped by the reader */
+    while (n < want && _pos < _text.size()) { char ch = _text[_pos++]; if (ch != '\r') buf[n++] = ch; }
+    if (n == 0 && _pos < _text.size()) return read(nullptr, buf, max_size);
+    return n;
+  }
+};
+static std::vector<int> fragSizes(const vj::Val& st) {
+  std::vector<int> v;
+  if (const vj::Val* f = st.get("frags")) for (auto& x : f->a) v.push_back((int)x->n);
+  return v;
+}
+// text given as a JSON string or, for arbitrary bytes / long generated lines, by a recipe
+static std::string textOf(const vj::Val& st) {
+  std::string t = st.str("text");
+  if (const vj::Val* pad = st.get("padline")) {
+    /* a comment of pad bytes in front of the text on the same line: moves the text across the internal buffer boundary */
+    long n = (long)pad->n;
+    std::string c = "/*";
+    while ((long)c.size() < n - 2) c += 'x';
+    c += "*/";
+    t = c + t;
+  }
+  return t;
+}
+
 // environment-specific paths in generated texts: @MOD:name@ -> path of the module library, @INC@ -> an include file
 static std::string subst(std::string t) {
   const char* mods = getenv("BLOC_MODULES");
@@ -377,6 +414,54 @@ static std::string doStep(const vj::Val& st) {
       per += "]";
       o += ",\"oc\":" + vj::q(oc) + ",\"no\":" + std::to_string(no) + ",\"name\":" + vj::q(name) + ",\"nst\":" + std::to_string(nst);
       o += ",\"per\":" + per + ",\"out\":" + vj::q(drainOut(c)) + ",\"rv\":" + retJson(*c.ctx) + "," + stateJson(*c.ctx);
+    }
+    else if (op == "tokens") {
+      /* the token sequence the parser sees when the text is delivered by the given reader */
+      Ctx& c = getCtx(id);
+      std::string t = textOf(st);
+      std::string how = st.str("reader", "frag");
+      Parser::StreamReader* rd = (how == "string") ? (Parser::StreamReader*)new StringReader(t) : (Parser::StreamReader*)new FragReader(t, fragSizes(st));
+      Parser* p = Parser::createInteractiveParser(*c.ctx, *rd);
+      std::string toks = "[";
+      bool first = true; int n = 0;
+      try {
+        for (; n < 20000; ++n) {
+          TokenPtr tk = p->pop();
+          if (!tk) break;
+          if (!first) toks += ','; first = false;
+          toks += "[" + std::to_string(tk->code) + "," + vj::q(tk->text) + "]";
+        }
+      } catch (ParseError& pe) { /* end of stream */ }
+      toks += "]";
+      delete p; delete rd;
+      o += ",\"oc\":\"ok\",\"n\":" + std::to_string(n) + ",\"toks\":" + toks;
+    }
+    else if (op == "execfrag") {
+      /* compile and run the text delivered in fragments (or by the built-in string reader) */
+      Ctx& c = getCtx(id);
+      std::string t = textOf(st);
+      std::string how = st.str("reader", "frag");
+      Parser::StreamReader* rd = (how == "string") ? (Parser::StreamReader*)new StringReader(t) : (Parser::StreamReader*)new FragReader(t, fragSizes(st));
+      Executable* ex = nullptr;
+      std::string oc = "ok"; int no = 0; std::string name;
+      try { ex = Parser::parse(*c.ctx, *rd); if (!ex) oc = "parse_null"; }
+      catch (ParseError& pe) { oc = "parse_error"; no = pe.no; }
+      delete rd;
+      std::string unp;
+      if (ex) {
+        c.execs.push_back(ex); c.last = ex;
+        int fd = memfd_create("vunp", 0); FILE* f = fdopen(fd, "w+");
+        ex->unparse(f); fflush(f);
+        off_t n = lseek(fd, 0, SEEK_END); unp.resize(n);
+        if (pread(fd, &unp[0], n, 0) < 0) unp.clear();
+        fclose(f);
+        try { ex->run(); }
+        catch (RuntimeError& re) { oc = "runtime_error"; no = re.no; name = errName(re); }
+      }
+      o += ",\"oc\":" + vj::q(oc) + ",\"no\":" + std::to_string(no) + ",\"name\":" + vj::q(name) + ",\"out\":" + vj::q(drainOut(c)) +
+           ",\"unp\":" + vj::q(unp) + ",\"rv\":" + retJson(*c.ctx);
+      c.ctx->returnCondition(false);
+      o += "," + stateJson(*c.ctx);
     }
     else if (op == "unban") {
       PluginManager::instance().unbanPlugin(st.str("m"));
